@@ -5,6 +5,7 @@ package gen
 
 import (
 	"fmt"
+	"strings"
 
 	"deps.dev/util/resolve"
 	"deps.dev/util/resolve/dep"
@@ -126,6 +127,8 @@ func npmVer(c triple) string {
 	return s
 }
 
+var distTags = []string{"next", "latest-1", "beta", "canary"}
+
 func npmReq(t *kernel.Tape, target []triple, tv int) string {
 	c := target[tv]
 	base := fmt.Sprintf("%d.%d.%d", c.M, c.m, c.p)
@@ -153,6 +156,11 @@ func npmReq(t *kernel.Tape, target []triple, tv int) string {
 	case 9:
 		return fmt.Sprintf("%s - %d.9.9", base, c.M+1)
 	case 10:
+		// a dist-tag requirement; mostly "latest", sometimes another tag
+		// (which may or may not exist in the target package)
+		if t.Bool(1, 4) {
+			return distTags[t.Choose(len(distTags))]
+		}
 		return "latest"
 	case 11:
 		return "^" + full
@@ -190,6 +198,23 @@ func NPM(t *kernel.Tape, k Knobs) *uni.Spec {
 		if t.Bool(1, 2) {
 			latest = t.Choose(len(trip[i]))
 		}
+		// Further dist-tags: each tag points at one version of the package, a
+		// version may carry several (comma separated). "latest-1" is a tag
+		// that merely contains the word latest.
+		extraTag := map[int][]string{}
+		if t.Bool(1, 3) {
+			nt := t.Range(1, 3)
+			used := map[string]bool{}
+			for x := 0; x < nt; x++ {
+				tg := distTags[t.Choose(len(distTags))]
+				if used[tg] {
+					continue
+				}
+				used[tg] = true
+				vi := t.Choose(len(trip[i]))
+				extraTag[vi] = append(extraTag[vi], tg)
+			}
+		}
 		for vi, c := range trip[i] {
 			v := uni.Ver{V: npmVer(c)}
 			if vi > 0 && t.Bool(1, 24) {
@@ -198,8 +223,13 @@ func NPM(t *kernel.Tape, k Knobs) *uni.Spec {
 			if hasVersion(p.Vers, v.V) {
 				continue // version keys of one package are pairwise distinct
 			}
+			var tags []string
 			if vi == latest {
-				v.Attrs = append(v.Attrs, kv(int(version.Tags), "latest"))
+				tags = append(tags, "latest")
+			}
+			tags = append(tags, extraTag[vi]...)
+			if len(tags) > 0 {
+				v.Attrs = append(v.Attrs, kv(int(version.Tags), strings.Join(tags, ",")))
 			}
 			if t.Bool(1, 8) {
 				v.Attrs = append(v.Attrs, kv(int(version.Blocked), ""))
